@@ -115,7 +115,10 @@ static size_t call_v(char *buf, size_t cap, const char *addr, const char *tags, 
 template <class F> static bool one_cap(size_t cap, F call, std::ostringstream &o, std::string &guard) {
     Block dst(cap, 0xAA);
     size_t ret = call(dst.c(), cap);
-    o << cap << ":" << ret << ":" << hexz(dst.p, cap);
+    // observable: the whole block after a failed call, the `ret` bytes written after a successful one
+    o << cap << ":" << ret << ":";
+    if (ret == 0) o << hexz(dst.p, cap);
+    else if (ret <= cap) o << hex(dst.p, ret);
     Block can(cap + 16, 0xAA);
     memset(can.p + cap, 0xC5, 16);
     size_t ret2 = call(can.c(), cap);
@@ -174,14 +177,14 @@ struct Capture : rtosc::RtData {
 
 static std::string tlink_state(rtosc::ThreadLink &tl, size_t maxmsg) {
     std::ostringstream o;
-    o << "w=" << hexz((const unsigned char *)tl.buffer(), maxmsg);
     bool has = tl.hasNext();
-    o << " n=" << (has ? 1 : 0);
+    o << "n=" << (has ? 1 : 0);
     if (has) {
         const char *m = tl.read();
         size_t l = rtosc_message_length(m, maxmsg);
         o << " m=" << l << ":" << hex((const unsigned char *)m, l);
-    }
+    } else
+        o << " w=" << hexz((const unsigned char *)tl.buffer(), maxmsg);   // nothing queued: buffer zero-filled?
     return o.str();
 }
 
